@@ -291,6 +291,8 @@ def gen_bnd(rng, under=None):
         # species names with underscores, one the prefix of another (variables are named <EDGE>_<SPECIES>)
         fam = rng.choice([['PM', 'PM_FINE', 'PM_10'], ['NO_3', 'NO', 'NO_3_X'], ['A_B', 'A', 'B']])
         u['species'] = fam[:len(u['species'])]
+    if rng.random() < 0.35:
+        camx.end_of_day(u)          # steps that end at midnight stamped (day that ends, 24 h)
     nt, nspec, nz = len(u['tflag']), len(u['species']), u['nz']
     u['bdata'] = [[[[camx.rand_f32_bits(rng) for _ in range((u['ny'] if e < 2 else u['nx']) * nz)] for e in range(4)]
                    for _ in range(nspec)] for _ in range(nt)]
